@@ -874,12 +874,13 @@ func runWild() WildTrace {
 // peer G (the library's own client, which answers pings) is idle meanwhile. "the closure of one peer never changes what
 // other peers receive": G's connection survives X's and still gets its answers.
 type KATrace struct {
-	Op       string `json:"op"` // kastall
-	GBefore  bool   `json:"gBefore"`
-	XDropped bool   `json:"xDropped"` // the server declared X inactive (steering: else nothing is judged)
-	GDropped int    `json:"gDropped"` // times the server declared G inactive
-	GClosed  bool   `json:"gClosed"`  // G's connection was closed
-	GAfter   bool   `json:"gAfter"`   // G's request after X was dropped was answered
+	Op        string `json:"op"` // kastall
+	GBefore   bool   `json:"gBefore"`
+	XDropped  bool   `json:"xDropped"`  // the server declared X (connected after G) inactive
+	X0Dropped bool   `json:"x0Dropped"` // ... and X0, which connected and stalled BEFORE G arrived
+	GDropped  int    `json:"gDropped"`  // times the server declared G inactive
+	GClosed   bool   `json:"gClosed"`   // G's connection was closed
+	GAfter    bool   `json:"gAfter"`    // G's request after X was dropped was answered
 }
 
 func runKAStall() KATrace {
@@ -906,6 +907,13 @@ func runKAStall() KATrace {
 	served := make(chan error, 1)
 	go func() { served <- sv.Serve(l) }()
 	defer func() { sv.Stop(); <-served; close(done) }()
+	X0, err := net.DialTimeout("tcp4", l.Addr().String(), time.Second)
+	if err != nil {
+		rec.Die("dial: %v", err)
+	}
+	defer X0.Close()
+	x0addr := X0.LocalAddr().String()
+	time.Sleep(20 * time.Millisecond)
 	G, err := tcp.Dial(l.Addr().String(), options.WithErrors(func(error) {}))
 	if err != nil {
 		rec.Die("dial: %v", err)
@@ -929,6 +937,7 @@ func runKAStall() KATrace {
 	defer X.Close()
 	xaddr := X.LocalAddr().String()
 	tr.XDropped = hooks.WaitFor(3*time.Second, func() bool { mu.Lock(); defer mu.Unlock(); return dropped[xaddr] > 0 })
+	tr.X0Dropped = hooks.WaitFor(time.Second, func() bool { mu.Lock(); defer mu.Unlock(); return dropped[x0addr] > 0 })
 	time.Sleep(400 * time.Millisecond) // G idle for several probe intervals after X's end
 	mu.Lock()
 	tr.GDropped = dropped[G.LocalAddr().String()]
